@@ -23,8 +23,15 @@ def main():
     if patch != "none":
         r = sh(["git", "-C", WT, "apply", os.path.abspath(patch)])
         if r.returncode != 0:
-            print("PATCH DOES NOT APPLY:", r.stdout)
-            return 3
+            # /repo has moved on since the patch was made (fix: commits): try a 3-way merge and print the rebased patch
+            r = sh(["git", "-C", WT, "apply", "--3way", os.path.abspath(patch)])
+            if r.returncode != 0:
+                print("PATCH DOES NOT APPLY:", r.stdout)
+                return 3
+            sh(["git", "-C", WT, "reset", "-q"])
+            rebased = sh(["git", "-C", WT, "diff"]).stdout
+            open(os.path.abspath(patch) + ".rebased", "w").write(rebased)
+            print("patch rebased onto current HEAD ->", os.path.abspath(patch) + ".rebased")
     try:
         r = sh([os.path.join(VERIF, "check"), prop, "--tier", tier], env=env, cwd=VERIF)
         print(r.stdout[-3000:])
